@@ -972,3 +972,37 @@ def h_integrate(P: PolyArr) -> PolyArr:
   Mn = sps.csr_matrix((M.data[keep] / (deg[inv][keep] + 1), (M.row[keep], nc[keep])), shape=(P.size, sp.ncols))
   Mn.sum_duplicates()
   return PolyArr(P.shape, Mn, sp)
+
+
+def directional_derivative(P: PolyArr, x_cols: np.ndarray, v_cols: np.ndarray) -> PolyArr:
+  """d/d eps P(x + eps v) at eps = 0 for polynomial P: each occurrence of a variable x_i in a monomial is replaced,
+  in turn, by v_i (x_cols[i], v_cols[i] are the columns of the single-variable monomials).  Atoms are not differentiated:
+  the caller must make sure P contains no atom depending on x."""
+  sp = P.sp
+  xs = sp.slots(sp.codes[np.asarray(x_cols)])[:, 0]
+  vs = sp.slots(sp.codes[np.asarray(v_cols)])[:, 0]
+  width = int(max(sp.nvars + 2, xs.max() + 2, vs.max() + 2))
+  lut = np.zeros(width, dtype=np.int64)
+  lut[xs] = vs
+  M = _csr(P._aligned()); M.sum_duplicates()
+  coo = M.tocoo()
+  ucols, inv = np.unique(coo.col, return_inverse=True)
+  s = sp.slots(sp.codes[ucols])
+  rows = []; cols = []; vals = []
+  for k in range(s.shape[1]):
+    hit = lut[s[:, k]] != 0
+    if not hit.any():
+      continue
+    s2 = s[hit].copy()
+    s2[:, k] = lut[s2[:, k]]
+    s2 = -np.sort(-s2, axis=1)
+    newc = np.full(len(ucols), -1, dtype=np.int64)
+    newc[hit] = sp.intern(sp.pack(s2))
+    nc = newc[inv]
+    ok = nc >= 0
+    rows.append(coo.row[ok]); cols.append(nc[ok]); vals.append(coo.data[ok])
+  if not rows:
+    return PolyArr(P.shape, sps.csr_matrix((P.size, sp.ncols)), sp)
+  Mn = sps.csr_matrix((np.concatenate(vals), (np.concatenate(rows), np.concatenate(cols))), shape=(P.size, sp.ncols))
+  Mn.sum_duplicates()
+  return PolyArr(P.shape, Mn, sp)
